@@ -1,6 +1,6 @@
 """C14 — custom date_formats round-trip what the format expresses."""
 import calendar
-from datetime import date, datetime
+from datetime import date, datetime, timedelta
 
 from ..gen.common import MN, WN, rng
 from ..hooks import AnchorCounter
@@ -27,7 +27,8 @@ FORMATS = ["%Y-%m-%d", "%d/%m/%Y", "%m.%d.%Y %H:%M", "%Y%m%d%H%M%S", "%d %B %Y",
            "[%Y] %B (%d)", "%Yx%mx%d", "%S:%M:%H %d %m %Y", "%f %Y-%m-%d", "%Y%m%d", "%d%m%Y", "%H%M", "%Y/%m/%d %I %p",
            "%A %d %B %Y %H:%M", "%B", "%d.%m.%Y %H:%M:%S.%f", "%m/%d/%y %I:%M %p", "%Y-%m", "%a, %d %b %Y", "%d %b", "%p %I:%M %d/%m/%Y",
            "%H:%M", "%y%m%d", "%A", "%Y %B", "%d.%m.%Y %H:%M:%S,%f", "%Y-%m-%d %H.%M.%S.%f", "%Y%m%d%H%M%S%f", "%H:%M:%S:%f %d/%m/%Y",
-           "%d %Y %m", "%Y-%d-%m %H:%M", "%b-%d-%Y", "%A %d. %B %Y", "%I%p %d/%m/%Y", "%m %d %y %H %M %S"]
+           "%d %Y %m", "%Y-%d-%m %H:%M", "%b-%d-%Y", "%A %d. %B %Y", "%I%p %d/%m/%Y", "%m %d %y %H %M %S",
+           "%j", "%j %H:%M", "%H:%M %j", "%j %I:%M %p"]
 N_EN = {"quick": 30000, "thorough": 400000}
 
 
@@ -60,7 +61,12 @@ def expected(d, f, pd, pm, year_now):
     mth = d.month if hasm else {"first": 1, "last": 12}[pm]
     dd = d.day if hasd else {"first": 1, "last": calendar.monthrange(y, mth)[1]}[pd]
     if has_j and "%Y" not in f and "%y" not in f:
-        return None
+        # a day of the year without a year counts in the current year (the rendered number is d's own day of year)
+        yday = d.timetuple().tm_yday
+        if yday > (366 if calendar.isleap(y) else 365):
+            return None
+        base = datetime(y, 1, 1) + timedelta(days=yday - 1)
+        mth, dd = base.month, base.day
     hh = d.hour if ("%H" in f or ("%I" in f and "%p" in f)) else (((d.hour % 12) or 12) % 12 if "%I" in f else 0)
     return datetime(y, mth, dd, hh, d.minute if "%M" in f else 0, d.second if "%S" in f else 0, d.microsecond if "%f" in f else 0)
 
